@@ -525,6 +525,54 @@ theorem ranked_of_all (t : Nat) : ∀ (p : List LOp), (∀ o ∈ p, rankOk t o =
 theorem ranked_sound {tid : Nat} {p : Prog} (hr : allOps (rankOk tid) p = true) {t : List LOp} {e : End} (h : Runs p t e) :
     Ranked tid t = true := ranked_of_all tid t (allOps_sound h hr)
 
+
+/-! ### a thread that makes any finite sequence of calls -/
+
+/-- `c₁; c₂; …; cₙ` — each call runs when the one before completed; an exception ends the sequence -/
+def apiSeq : List Prog → Prog
+  | [] => .skip
+  | c :: cs => .seq c (apiSeq cs)
+
+theorem safeFromR_append (re : Bool) : ∀ (t1 : List LOp) (d : Nat) (t2 : List LOp),
+    SafeFromR re d t1 = true → SafeFromR re 0 t2 = true → SafeFromR re d (t1 ++ t2) = true := by
+  intro t1
+  induction t1 with
+  | nil =>
+    intro d t2 h1 h2
+    simp only [SafeFromR, beq_iff_eq] at h1
+    subst h1; simpa using h2
+  | cons op t1 ih =>
+    intro d t2 h1 h2
+    cases op <;> simp only [List.cons_append, SafeFromR, Bool.and_eq_true] at h1 ⊢
+    · exact ⟨h1.1, ih _ _ h1.2 h2⟩
+    · exact ⟨h1.1, ih _ _ h1.2 h2⟩
+    · exact ⟨h1.1, ih _ _ h1.2 h2⟩
+    · exact ih _ _ h1 h2
+    · exact ih _ _ h1 h2
+    · exact ⟨h1.1, ih _ _ h1.2 h2⟩
+
+theorem ranked_append (tid : Nat) : ∀ (t1 t2 : List LOp), Ranked tid t1 = true → Ranked tid t2 = true → Ranked tid (t1 ++ t2) = true := by
+  intro t1
+  induction t1 with
+  | nil => intro t2 _ h2; simpa using h2
+  | cons op t1 ih =>
+    intro t2 h1 h2
+    cases op <;> simp only [List.cons_append, Ranked, Bool.and_eq_true] at h1 ⊢ <;>
+      first | exact ih _ h1 h2 | exact ⟨h1.1, ih _ h1.2 h2⟩
+
+/-- a property of operation lists that holds of `[]`, is closed under `++` and holds on every path of every call holds on every
+    path of the sequence -/
+theorem apiSeq_paths {P : List LOp → Prop} (hnil : P []) (happ : ∀ a b, P a → P b → P (a ++ b)) :
+    ∀ (calls : List Prog), (∀ c ∈ calls, ∀ t e, Runs c t e → P t) → ∀ t e, Runs (apiSeq calls) t e → P t := by
+  intro calls
+  induction calls with
+  | nil => intro _ t e h; cases h; exact hnil
+  | cons c cs ih =>
+    intro hc t e h
+    cases h with
+    | seqN h1 h2 => exact happ _ _ (hc c (by simp) _ _ h1) (ih (fun c' hc' => hc c' (by simp [hc'])) _ _ h2)
+    | seqX h1 _ => exact hc c (by simp) _ _ h1
+
 /-! ### the matcher accepts only paths -/
 
 /-- what a continuation-passing matcher must guarantee -/
@@ -638,4 +686,18 @@ theorem accepts_sound {fuel : Nat} {p : Prog} {t : List LOp} (h : accepts fuel p
   subst ht
   exact ⟨e, hr⟩
 
+end Rbacx.LockProg
+
+namespace Rbacx.LockProg
+open Rbacx.Locks
+/-! ### the analysis rejects what it should (non-vacuity of `safe`) -/
+example : safe true (.withLock (.atom (.wait 2))) = false := by decide                       -- join under the lock
+example : safe true (.withLock (.seq (.atom .ext) mayRaise)) = false := by decide             -- source call under the lock
+example : safe true (.seq (.atom .acq) (.seq (.choice (.exit .ret) .skip) (.atom .rel))) = false := by decide   -- early return skips release
+example : safe true (.seq (.atom .acq) (.seq mayRaise (.atom .rel))) = false := by decide      -- an exception skips release
+example : safe false (.withLock (.call (.withLock .skip))) = false := by decide                -- plain Lock re-acquired by a nested call
+example : safe true (.withLock (.call (.withLock .skip))) = true := by decide                  -- fine for an RLock
+example : safe true (.loop (.atom .acq)) = false := by decide                                  -- a loop that does not restore the depth
+example : safe true (.loop (.seq (.withLock (.choice (.exit .brk) .skip)) (.atom .ext))) = true := by decide
+example : safe true (.withLock (.seq (.atom (.spawn 1)) (.atom (.wait 1)))) = false := by decide   -- the pre-repair start()
 end Rbacx.LockProg
